@@ -161,6 +161,14 @@ DeliverBatch(bs) ==
        /\ has' = r.has /\ sigs' = r.sigs /\ stable' = r.stable /\ slots' = r.slots /\ ccache' = r.cc
     /\ UNCHANGED <<dups, pool, seenC, seenT>>
 
+(* What the constants of a configuration switch off.  TLC's per-action coverage (-coverage) reports such an action with 0 states
+   - an `\E` over an empty constant set even loses its name and is reported as a piece of Next.  The vacuity guard of the check
+   (checks/c20.py: never_taken) subtracts exactly this set, and it insists that every action listed here was indeed never taken
+   and that every action is taken in at least one configuration of the tier: an action that is ON and never taken stays an alarm. *)
+ConfiguredOff == (IF MaxBatch < 2 \/ NBatch = 0 THEN {"DeliverBatch"} ELSE {})
+                 \cup (IF Races THEN {} ELSE {"RaceInsert"})
+                 \cup (IF MaxDup = 0 THEN {"Duplicate"} ELSE {})
+
 Next == (\E m \in Msgs : Deliver(m)) \/ (\E m \in Msgs : Duplicate(m)) \/ TimerDrain
         \/ (\E h \in 1..NB, d \in 1..ND : RaceInsert(h, d))
         \/ (\E bs \in Batches : DeliverBatch(bs))
